@@ -1,4 +1,5 @@
-(* C18: (render "dir" "list file content" (("path" "content") ...)) -> ok "<README bytes>" | panic "<message>" *)
+(* C18: (history "dir" (("list content" (("path" "content") ...)) ...)) -> per run, tab separated: ok "<README>" | none
+   C18: (render "dir" "list file content" (("path" "content") ...)) -> ok "<README bytes>" | panic "<message>" *)
 open Sexp
 open X_c18
 
@@ -9,4 +10,13 @@ let () = Registry.register "C18" (function
       (match render_files fl (by dir) (by content) with
        | Ok s -> "ok " ^ quote (implode s)
        | Panic m -> "panic " ^ quote (implode m))
+    | L [A "history"; dir; L runs] ->
+      (* README.md after each run of a history that starts without README.md *)
+      let run_of = function
+        | L [content; L files] ->
+          (List.map (function L [p; c] -> (by p, by c) | _ -> raise (Parse_error "file")) files, by content)
+        | _ -> raise (Parse_error "run") in
+      String.concat "\t"
+        (List.map (function Some s -> "ok " ^ quote (implode s) | None -> "none")
+           (history_files None (by dir) (List.map run_of runs)))
     | _ -> "ERR bad C18 request")
